@@ -49,9 +49,10 @@ type c01Step struct {
 }
 type c01Beh struct {
 	Cfg struct {
-		Wt  bool `json:"wt"`
-		Np  bool `json:"np"`
-		Ids bool `json:"ids"`
+		Wt    bool   `json:"wt"`
+		Np    bool   `json:"np"`
+		Ids   bool   `json:"ids"`
+		Inner string `json:"inner"` // kind of store the identity store wraps (spec: InnerTable)
 	} `json:"cfg"`
 	Steps []c01Step `json:"steps"`
 	Univ  *c01Univ  `json:"univ"`
@@ -75,9 +76,17 @@ type c01CidRow struct {
 	Mh   c01Cid `json:"mh"`
 	IsId bool   `json:"isid"`
 }
+
+// c01InnerRow: one kind of store that NewIdStore may wrap (spec: AllInners/InnerBase/InnerCaps).
+type c01InnerRow struct {
+	Kind string   `json:"kind"`
+	Base string   `json:"base"` // "plain": default blockstore; "wrap": harness wrapper exposing exactly Caps; "tq"/"bloom": CachedBlockstore
+	Caps []string `json:"caps"` // optional capabilities: "viewer", "akerr"
+}
 type c01Univ struct {
-	Cids []c01CidRow `json:"cids"`
-	Mhs  []c01MhRow  `json:"mhs"`
+	Cids   []c01CidRow   `json:"cids"`
+	Mhs    []c01MhRow    `json:"mhs"`
+	Inners []c01InnerRow `json:"inners"`
 }
 
 type c01Entry struct {
@@ -91,6 +100,7 @@ type c01World struct {
 	byMh    map[string]string    // real multihash bytes -> "sha:h" / "id:k"
 	real    map[c01Cid]cid.Cid
 	rowOf   map[c01Cid]c01CidRow
+	inners  map[string]c01InnerRow
 }
 
 func c01Payload(kind string, idx, n int) []byte {
@@ -108,7 +118,10 @@ func c01Payload(kind string, idx, n int) []byte {
 // c01Build makes the real blocks/CIDs of a universe; a non-empty error means the harness and the
 // spec disagree about the universe itself (a defect of the check, never of the code under test).
 func c01Build(u c01Univ) (*c01World, error) {
-	w := &c01World{entries: map[c01Cid]*c01Entry{}, byMh: map[string]string{}, real: map[c01Cid]cid.Cid{}, rowOf: map[c01Cid]c01CidRow{}}
+	w := &c01World{entries: map[c01Cid]*c01Entry{}, byMh: map[string]string{}, real: map[c01Cid]cid.Cid{}, rowOf: map[c01Cid]c01CidRow{}, inners: map[string]c01InnerRow{}}
+	for _, r := range u.Inners {
+		w.inners[r.Kind] = r
+	}
 	for _, r := range u.Mhs {
 		code := map[string]uint64{"sha2-256": mh.SHA2_256, "sha2-512": mh.SHA2_512, "identity": mh.IDENTITY}[r.Fn]
 		if r.Fn != "identity" && code == 0 {
@@ -221,6 +234,113 @@ func c01OwnUniverse(nb, nid int, wide bool) c01Univ {
 	return u
 }
 
+// c01OwnInners is the harness' copy of the spec's inner-store table (record mode only; the kind must
+// be one the spec knows and, for the wrappers, TraceBlockstore!TReset compares the MEASURED capability
+// set logged with every Reset with the spec's InnerCaps).
+func c01OwnInners() []c01InnerRow {
+	return []c01InnerRow{
+		{Kind: "plain", Base: "plain", Caps: []string{"akerr"}},
+		{Kind: "w", Base: "wrap", Caps: []string{}},
+		{Kind: "wV", Base: "wrap", Caps: []string{"viewer"}},
+		{Kind: "wA", Base: "wrap", Caps: []string{"akerr"}},
+		{Kind: "wVA", Base: "wrap", Caps: []string{"akerr", "viewer"}},
+		{Kind: "tq", Base: "tq", Caps: []string{"akerr", "viewer"}},
+		{Kind: "bloom", Base: "bloom", Caps: []string{"akerr", "viewer"}},
+	}
+}
+
+// ---- transparent wrappers of a Blockstore that expose a chosen set of optional capabilities ------
+// Embedding the INTERFACE hides every optional method of the wrapped value; the mixins add them back
+// one by one.  The Viewer mixin is a faithful view of the wrapped store (it knows nothing about
+// identity CIDs, exactly like the caching layers).
+type c01ViewMix struct{ in Blockstore }
+
+func (v c01ViewMix) View(ctx context.Context, k cid.Cid, cb func([]byte) error) error {
+	b, err := v.in.Get(ctx, k)
+	if err != nil {
+		return err
+	}
+	return cb(b.RawData())
+}
+
+type c01AkMix struct{ in Blockstore }
+
+func (a c01AkMix) AllKeysChanWithErr(ctx context.Context) (<-chan cid.Cid, func() error, error) {
+	return a.in.(AllKeysChanWithErrer).AllKeysChanWithErr(ctx)
+}
+
+type c01W struct{ Blockstore }
+type c01WV struct {
+	Blockstore
+	c01ViewMix
+}
+type c01WA struct {
+	Blockstore
+	c01AkMix
+}
+type c01WVA struct {
+	Blockstore
+	c01ViewMix
+	c01AkMix
+}
+
+// c01Caps measures the optional capabilities of a store by type assertion.
+func c01Caps(b Blockstore) []string {
+	caps := []string{}
+	if _, ok := b.(AllKeysChanWithErrer); ok {
+		caps = append(caps, "akerr")
+	}
+	if _, ok := b.(Viewer); ok {
+		caps = append(caps, "viewer")
+	}
+	return caps
+}
+
+// c01Inner builds the store of the given kind on top of the default blockstore.
+func c01Inner(row c01InnerRow, base Blockstore) (Blockstore, error) {
+	ctx := context.Background()
+	switch row.Base {
+	case "plain":
+		return base, nil
+	case "wrap":
+		want := append([]string{}, row.Caps...)
+		sort.Strings(want)
+		var in Blockstore
+		switch strings.Join(want, ",") {
+		case "":
+			in = c01W{base}
+		case "viewer":
+			in = c01WV{base, c01ViewMix{base}}
+		case "akerr":
+			in = c01WA{base, c01AkMix{base}}
+		case "akerr,viewer":
+			in = c01WVA{base, c01ViewMix{base}, c01AkMix{base}}
+		default:
+			return nil, fmt.Errorf("inner kind %s: unknown capability set %v", row.Kind, row.Caps)
+		}
+		if got := c01Caps(in); strings.Join(got, ",") != strings.Join(want, ",") {
+			return nil, fmt.Errorf("inner kind %s: wrapper exposes %v, the spec says %v", row.Kind, got, want)
+		}
+		return in, nil
+	case "tq":
+		return CachedBlockstore(ctx, base, CacheOpts{HasTwoQueueCacheSize: 4})
+	case "bloom":
+		in, err := CachedBlockstore(ctx, base, CacheOpts{HasTwoQueueCacheSize: 4, HasBloomFilterSize: 64, HasBloomFilterHashes: 7})
+		if err != nil {
+			return nil, err
+		}
+		st, ok := in.(BloomCacheStatus)
+		if !ok {
+			return nil, fmt.Errorf("bloom-cached store without BloomCacheStatus")
+		}
+		if err := st.Wait(ctx); err != nil { // sequential use only: the filter is built before the first call
+			return nil, fmt.Errorf("bloom build: %v", err)
+		}
+		return in, nil
+	}
+	return nil, fmt.Errorf("inner kind %q: unknown base %q", row.Kind, row.Base)
+}
+
 func (w *c01World) bytesOf(c c01Cid) []byte { return w.entries[w.rowOf[c].Mh].data }
 func (w *c01World) block(c c01Cid) blocks.Block {
 	b, err := blocks.NewBlockWithCid(w.bytesOf(c), w.real[c])
@@ -231,23 +351,39 @@ func (w *c01World) block(c c01Cid) blocks.Block {
 }
 
 type c01Sys struct {
-	d  ds.Batching
-	bs Blockstore
-	np bool
-	w  *c01World
+	d     ds.Batching
+	bs    Blockstore
+	np    bool
+	w     *c01World
+	icaps []string // measured optional capabilities of the wrapped store
 }
 
-func c01New(wt, np, ids bool, w *c01World) *c01Sys {
+// c01New builds the system of one configuration: default blockstore (WriteThrough, NoPrefix), and with
+// ids the identity store around the inner store of the given kind.  An error is a defect of the check
+// (unknown kind, wrapper not as specified), never of the code under test.
+func c01New(wt, np, ids bool, inner string, w *c01World) (*c01Sys, error) {
 	d := dssync.MutexWrap(ds.NewMapDatastore())
 	opts := []Option{WriteThrough(wt)}
 	if np {
 		opts = append(opts, NoPrefix())
 	}
 	bs := NewBlockstore(d, opts...)
-	if ids {
-		bs = NewIdStore(bs)
+	row, ok := w.inners[inner]
+	if !ok {
+		return nil, fmt.Errorf("inner kind %q is not in the universe record", inner)
 	}
-	return &c01Sys{d: d, bs: bs, np: np, w: w}
+	if !ids && row.Base != "plain" {
+		return nil, fmt.Errorf("inner kind %q without the identity store is outside the spec's Cfgs", inner)
+	}
+	in, err := c01Inner(row, bs)
+	if err != nil {
+		return nil, err
+	}
+	bs = in
+	if ids {
+		bs = NewIdStore(in)
+	}
+	return &c01Sys{d: d, bs: bs, np: np, w: w, icaps: c01Caps(in)}, nil
 }
 
 // mhName maps a real multihash back to the model name ("sha:h" / "id:k") or "?".
@@ -504,7 +640,10 @@ func c01Replay(t *testing.T) {
 		if w == nil {
 			t.Fatalf("behaviour %d before any universe record", i)
 		}
-		s := c01New(b.Cfg.Wt, b.Cfg.Np, b.Cfg.Ids, w)
+		s, err := c01New(b.Cfg.Wt, b.Cfg.Np, b.Cfg.Ids, b.Cfg.Inner, w)
+		if err != nil {
+			t.Fatalf("behaviour %d: configuration %+v: %v", i, b.Cfg, err)
+		}
 		res := M{"i": i, "ok": true}
 		if d := s.battery(nil, b.Cfg.Ids); d != "" {
 			res = M{"i": i, "ok": false, "step": 0, "what": "initial: " + d}
@@ -535,19 +674,27 @@ func c01Replay(t *testing.T) {
 // c01Record: random long histories; one trace with Reset events between runs.
 func c01Record(t *testing.T) {
 	rng := vRand()
-	runs, length := 6, 200
+	runs, length := 10, 120 // more, shorter runs than configurations matter: 7 inner kinds under the identity store
 	if !vQuick() {
 		runs, length = 40, 400
 	}
 	u := c01OwnUniverse(12, 8, true) // = NB, NID, Wide of TraceBlockstore.cfg
+	u.Inners = c01OwnInners()        // = Inners of TraceBlockstore.cfg
 	w, err := c01Build(u)
 	if err != nil {
 		t.Fatalf("universe: %v", err)
 	}
 	for r := 0; r < runs; r++ {
 		wt, np, ids := rng.Intn(2) == 0, rng.Intn(2) == 0, rng.Intn(2) == 0
-		s := c01New(wt, np, ids, w)
-		vEmit(M{"ev": "Reset", "wt": wt, "np": np, "ids": ids, "mhs": u.Mhs})
+		inner := "plain"
+		if ids { // the inner-store kind is a dimension of the identity-store wrapper (spec: Cfgs)
+			inner = u.Inners[rng.Intn(len(u.Inners))].Kind
+		}
+		s, err := c01New(wt, np, ids, inner, w)
+		if err != nil {
+			t.Fatalf("run %d: %v", r, err)
+		}
+		vEmit(M{"ev": "Reset", "wt": wt, "np": np, "ids": ids, "inner": inner, "caps": s.icaps, "mhs": u.Mhs})
 		var cs []c01Cid
 		for _, row := range w.cids {
 			cs = append(cs, row.C)
